@@ -331,6 +331,7 @@ class Exchange(Scenario):
                 "chunks": rchunks,
                 "via": rng.choice(["iter", "iter", "write", "mixed"]),
                 "closable": rng.random() < 0.7,
+                "restart": rng.random() < 0.12,
             },
         }
 
@@ -440,7 +441,19 @@ class Exchange(Scenario):
                     record["read"] = drive_reads(w, appspec.get("read", []), to_end=True)
                 else:
                     record["read"] = drive_reads(w, appspec.get("read", []), to_end=True, limit=len(rq["body"]))
-            write = start_response(status, list(rheaders))
+            if appspec.get("restart"):
+                # PEP 3333: before any output was sent, an error handler may replace the pending response by calling
+                # start_response again with exc_info; the client must get the second response only
+                start_response("500 INTERNAL SERVER ERROR", [("X-Discarded", "first-attempt"), ("Content-Length", "0")])
+                try:
+                    raise RuntimeError("first attempt failed")
+                except RuntimeError:
+                    import sys
+
+                    write = start_response(status, list(rheaders), sys.exc_info())
+                record["restarted"] = True
+            else:
+                write = start_response(status, list(rheaders))
 
             class Body:
                 def __init__(self, items):
